@@ -8,6 +8,9 @@
 pub mod lang;
 pub mod mach;
 mod term;
+#[cfg(feature = "verif")]
+#[allow(dead_code)]
+pub mod verif;
 
 fn main() {
     term::main();
